@@ -562,6 +562,22 @@ def probes() -> List[Tuple[str, Dict[str, Any]]]:
         if n["hostname"] == "b":
             n["services"] = [{"type": "dns-server"}]
     out.append(("probe/defaults_block_service_restart_duration", c))
+    # own options next to the defaults block (the item's own statement wins), folder durations for declared folders
+    c = base()
+    c["defaults"] = {"node_scan_duration": 7, "service_fix_duration": 9, "folder_scan_duration": 1, "folder_restore_duration": 4}
+    for n in c["simulation"]["network"]["nodes"]:
+        if n["hostname"] == "b":
+            n["node_scan_duration"] = 2
+            n["services"] = [{"type": "dns-server", "options": {"fixing_duration": 4}}, {"type": "ftp-server"}]
+            n["folders"] = [{"folder_name": "docs", "files": [{"file_name": "a.txt"}]}, {"folder_name": "empty"}]
+    out.append(("probe/defaults_block_next_to_own_options", c))
+    # a firewall that declares only some of its six rule lists
+    for only in ("external_inbound_acl", "dmz_outbound_acl", "internal_inbound_acl"):
+        c = scenarios.firewalled(dmz=True)
+        for n in c["simulation"]["network"]["nodes"]:
+            if n["hostname"] == "fw":
+                n["acl"] = {only: {1: {"action": "PERMIT"}, 3: {"action": "DENY", "protocol": "ICMP"}}}
+        out.append((f"probe/firewall_only_{only}", c))
     # link bandwidths that are not whole numbers of Mbps
     c = scenarios.switched(4)
     for l, bw in zip(c["simulation"]["network"]["links"], (0.5, 2.5, 0.001, 1000.25)):
